@@ -663,6 +663,13 @@ class Interp:
                 return dict(inf=math.inf, pi=math.pi, nan=math.nan, e=math.e)[attr]
             return LibFn(f'{v.name}.{attr}')
         if isinstance(v, LibFn):
+            from . import prelude
+            full = f'{v.name}.{attr}'
+            for a_, b_ in (('numpy.', 'np.'), ('scipy.', 'sp.')):
+                if full.startswith(a_):
+                    full = b_ + full[len(a_):]
+            if full in prelude.CONSTS:
+                return prelude.CONSTS[full]
             return LibFn(f'{v.name}.{attr}')
         if isinstance(v, NDArr):
             if attr in ('real', 'imag', 'T', 'flat'):
